@@ -8,8 +8,9 @@
 (* encoding (model-level check in MC_Variants).                            *)
 (*                                                                         *)
 (* BER style fields:                                                       *)
-(*   len    "min" | "pad1" | "pad4" : definite lengths minimal, or long    *)
-(*          form with 1 / 4 length octets more than needed (8.1.3.5)       *)
+(*   len    "min" | "pad1" | "pad4" | "pad9" : definite lengths minimal,   *)
+(*          or long form with 1 / 4 / 9 length octets more than needed     *)
+(*          (8.1.3.5 does not bound the padding below 126 octets)          *)
 (*   indef  "none" | "all" | "odd" | "even" : which constructed encodings  *)
 (*          (by nesting depth) use the indefinite form (8.1.3.6)           *)
 (*   str    "prim" | "two" | "nested" : string types primitive, or         *)
@@ -36,6 +37,7 @@ VarLen(st, n) ==
   IN CASE st.len = "min" -> minimal
        [] st.len = "pad1" -> <<128 + Len(o) + 1>> \o <<0>> \o o
        [] st.len = "pad4" -> <<128 + Len(o) + 4>> \o <<0, 0, 0, 0>> \o o
+       [] st.len = "pad9" -> <<128 + Len(o) + 9>> \o <<0, 0, 0, 0, 0, 0, 0, 0, 0>> \o o     \* more length octets than a size_t has
 
 UseIndef(st, depth) == CASE st.indef = "none" -> FALSE [] st.indef = "all" -> TRUE
                          [] st.indef = "odd" -> depth % 2 = 1 [] st.indef = "even" -> depth % 2 = 0
@@ -150,6 +152,7 @@ BerStyles == <<
   [Canon EXCEPT !.ext = "cons"],
   [Canon EXCEPT !.ext = "cons", !.indef = "all"],
   [Canon EXCEPT !.indef = "all", !.len = "pad4", !.setrev = TRUE, !.defp = TRUE, !.true = 128],
+  [Canon EXCEPT !.len = "pad9"],
   [Canon EXCEPT !.real = "even"],
   [Canon EXCEPT !.real = "scaled"],
   [Canon EXCEPT !.real = "base8"],
@@ -188,6 +191,15 @@ Newer(env, T) ==
     [] IsRef(T) -> Newer(env, Follow(env, T))
     [] T.k = "TAGGED" -> [T EXCEPT !.t = Newer(env, T.t)]
     [] OTHER -> T
+\* the sender's version has n more additions than the receiver knows; only the last one is present
+\* (a presence bitmap of more than 64 bits changes the form of its length, X.691 11.9.3.4 / X.696 16.3)
+RECURSIVE NewerN(_, _, _)
+NewerN(env, T, n) ==
+  CASE T.k = "SEQUENCE" -> [T EXCEPT !.adds = @ \o [i \in 1..n |-> Comp("zz-unknown", TTag("P", 776 + i, "I", TOctets(CNone)), "O")]]
+    [] IsRef(T) -> NewerN(env, Follow(env, T), n)
+    [] T.k = "TAGGED" -> [T EXCEPT !.t = NewerN(env, T.t, n)]
+    [] OTHER -> T
+NewerValN(v, extra, n) == v \o [i \in 1..n |-> IF i = n THEN Pres(extra) ELSE <<>>]
 IsExtSeq(env, T0) == LET T == Resolve(env, T0) IN T.k = "SEQUENCE" /\ T.ext
 NewerVal(v, extra) == v \o <<Pres(extra)>>
 =============================================================================
